@@ -9,7 +9,7 @@ from . import sweeps
 TOS_POOL = [0, 0, 0, 0, 1, 1, 2, 3]
 
 
-def history(rng, net, n, tos_pool=TOS_POOL, p_rand_tos=0.1):
+def history(rng, net, n, tos_pool=TOS_POOL, p_rand_tos=0.1, gaps=None):
     """Frames per the property's quantifier; commands respect the domain restriction."""
     mm = MapperModel()
     out = []
@@ -61,6 +61,19 @@ def history(rng, net, n, tos_pool=TOS_POOL, p_rand_tos=0.1):
                 rng.getrandbits(8) for _ in range(rng.choice([0, 4, 30])))
         mm.step(fr)
         out.append(fr)
+        if mm.state == MapperModel.ACTIVE and rng.random() < 0.05:
+            # the mapper keeps the responder charged during a long mapping run: Charge frames a second or more apart, then
+            # somebody else tries a Discover - no Reset has been sent, so it must stay unanswered
+            for k in range(rng.randint(2, 3)):
+                ch = W.simple(W.OP_CHARGE, net.own, mm.mapper, rng.randint(1, 0xFFFF), tos=rng.choice([0, 0, 1]), eth_src=mm.apparent)
+                mm.step(ch)
+                out.append(ch)
+                if gaps is not None and k > 0:
+                    gaps[len(out) - 1] = ["ADV %d" % rng.choice([999, 1000, 1001, 1500, 5000])]
+            other = rng.choice([s_ for s_ in stations if s_ != mm.mapper])
+            d = W.discover(other, rng.getrandbits(16), rng.getrandbits(16), [], tos=rng.choice([0, 1]))
+            mm.step(d)
+            out.append(d)
     return out
 
 
@@ -71,10 +84,11 @@ def make_scenarios(ctx, count, flen):
         cfg = G.rand_cfg(rng, mtu=rng.choice([576, 1500, 9216, rng.randint(576, 9216)]))
         glob = G.rand_global(rng, icon_size=rng.choice([0, 300]))
         net = G.Net(rng, cfg["mac"], nmappers=rng.randint(3, 4), nstrangers=3)
+        gaps = {}
         if i % 4 == 3:
             frames = G.session_history(rng, net, cfg["mtu"], flen, p_mut=0.0, p_noise=0.0, p_misc=0.1, max_emit=2)
         else:
-            frames = history(rng, net, flen)
+            frames = history(rng, net, flen, gaps=gaps)
         s = H.Scenario("h%d" % i, meta=dict(frames=frames, own=cfg["mac"], mtu=cfg["mtu"], rxseed=cfg["rxseed"]))
         s.iface(0, **H.iface_kw(cfg)).glob(**G.global_kw(glob))
         s.add("OPT sleep=0")
@@ -83,7 +97,7 @@ def make_scenarios(ctx, count, flen):
             cfg1, fr1 = G.shadow_iface(rng, cfg, max(5, len(frames) // 2))
             s.iface(1, **H.iface_kw(cfg1))
             shadow = (1, fr1)
-        s.frames(0, frames, rng if i % 2 else None, p_gap=0.25, base=True, shadow=shadow)
+        s.frames(0, frames, rng if i % 2 else None, p_gap=0.25, base=True, shadow=shadow, inserts=gaps)
         scns.append(s)
     return scns
 
